@@ -62,6 +62,27 @@ def gen_case(rng, tier, stream):
             ops.append(['s', -1])
         else:
             ops.append(['s', rng.randrange(nsteps)])
+    # keep the history only as long as every product is exactly representable in binary64
+    # (the implementation multiplies floats; the model and the oracle are exact rationals)
+    cur = {n: Fraction(init[n]) for n in NAMES}
+    steps, keep = 0, 0
+    for op in ops:
+        if op[0] == 'p':
+            steps += 1
+        else:
+            sidx = steps if op[1] < 0 else op[1]
+            exact = True
+            for n in NAMES:
+                if n in tables and not callable_[n]:
+                    f = Fraction(tables[n][sidx]) if sidx < len(tables[n]) else Fraction(1)
+                    v = cur[n] * f
+                    if abs(v.numerator) >= 2 ** 60 or v.denominator >= 2 ** 60 or Fraction(float(v)) != v:   # the driver prints 63-bit integers
+                        exact = False
+                    cur[n] = Fraction(int(v)) if n.endswith('_steps') else v
+            if not exact:
+                break
+        keep += 1
+    ops = ops[:keep]
     return {'init': {k: fr(Fraction(v)) for k, v in init.items()}, 'callable': callable_, 'tables': {k: [fr(x) for x in v] for k, v in tables.items()},
             'ops': ops, 'stream': stream}
 
